@@ -2,6 +2,7 @@ package refsql
 
 import (
 	"database/sql"
+	"errors"
 	"fmt"
 	"strings"
 	"time"
@@ -59,7 +60,10 @@ func (s *Store) Get(key string) ([]byte, error) {
 	row := s.db.QueryRow(`SELECT sum FROM refs WHERE name = ?`, key)
 	sum := make([]byte, 16)
 	if err := row.Scan(&sum); err != nil {
-		return nil, ref.ErrKeyNotFound
+		if errors.Is(err, sql.ErrNoRows) {
+			return nil, ref.ErrKeyNotFound
+		}
+		return nil, err
 	}
 	return sum, nil
 }
